@@ -289,6 +289,9 @@ class Opts:
     realise: str = "synth"  # "synth" (save()/record_error()) | "run" (pickled copy of the job is run)
     k: ty.Any = None  # max_concurrent (None = unlimited)
     fail: int = 0  # maximum number of failing jobs the script may choose (0 = none fail)
+    failkind: str = "recorded"  # "recorded": the failed job leaves an errored result + error file (task body raised); "silent": its
+    # worker.run raises but nothing is left in the cache (failure in a pre_run / pre_run_task / post_run_task hook, or while the job
+    # directory is prepared: Job.run raises outside the part that records the error)
     vis: tuple = (INF,)  # lock-visibility delays the script may choose per job: 0 = lock file seen at the
     #                      next observation, d = after d further completions, INF = never seen before the result
     multi: bool = False  # more than one job may finish between two observations
@@ -302,7 +305,7 @@ class Opts:
     genmark: bool = False  # executions of the second submission produce values that differ from the first one's
 
     def key(self):
-        return (self.spec, self.variant, self.loop, self.realise, self.k, self.fail, tuple(self.vis), self.multi, self.probe, self.prior, self.rerun, self.propagate, self.genmark)
+        return (self.spec, self.variant, self.loop, self.realise, self.k, self.fail, tuple(self.vis), self.multi, self.probe, self.prior, self.rerun, self.propagate, self.genmark, self.failkind)
 
     def asdict(self):
         return attrs.asdict(self)
@@ -398,6 +401,10 @@ def _scripted_submitter_class():
                 return super().get_runnable_tasks(graph)
             ctl.ncalls += 1
             if ctl.ncalls > MAX_ROUNDS * 12:
+                if ctl.nfail and not ctl.pending:
+                    # a job has failed, nothing is executing and the loop keeps asking: it spins for ever
+                    ctl.ev("spin", "get_runnable_tasks called again and again although nothing is executing")
+                    raise LoopDeadlock("expand_workflow_async spins: nothing is executing, nothing new becomes runnable")
                 raise CheckerError("real loop does not terminate")
             try:
                 tasks = super().get_runnable_tasks(graph)
@@ -591,6 +598,8 @@ class Controller:
             res = Result(outputs=t.Outputs(out=body_value(t.tag, t.x, t.y, t.z, self.gen)), runtime=None, errored=False, cache_dir=cd)
             save(cd, result=res)
             return res, None
+        if self.o.failkind == "silent":
+            return None, RuntimeError(f"pre_run hook of {jid} failed")
         res = Result(outputs=None, runtime=None, errored=True, cache_dir=cd)
         save(cd, result=res)
         record_error(cd, error=["Traceback (most recent call last):\n", f"RuntimeError: body of {jid} failed\n"])
